@@ -57,8 +57,8 @@ func gen(r *core.PRNG, tier string) any {
 	p := &Plan{KDF: r.Range(1, 3), AEAD: r.Range(1, 3), IkmR: r.Uint64(), IkmS: r.Uint64(), Entropy: r.Uint64()}
 	p.KEM = kems[r.Pick(20, 8, 3, 30, 12, 6, 6)]
 	p.Mode = r.Intn(4)
-	if !hpkeref.IsDHKEM(uint16(p.KEM)) {
-		p.Mode &= 1 // the hybrids have no auth mode
+	if !hpkeref.IsDHKEM(uint16(p.KEM)) && r.Chance(7, 8) {
+		p.Mode &= 1 // the hybrids have no auth mode (asking for it anyway is a misconfiguration fault)
 	}
 	switch r.Intn(4) {
 	case 0:
@@ -142,9 +142,27 @@ func exec(planJSON []byte, run *core.Run) {
 	scheme := K.Scheme()
 	isDH := hpkeref.IsDHKEM(uint16(p.KEM))
 	if !isDH && p.Mode >= 2 {
-		// auth modes do not exist for the hybrid KEMs (X-Wing returns an error, the
-		// draft00 hybrid panics "not supported"): outside this property
-		run.Bad("auth mode on a KEM without auth")
+		// auth modes do not exist for the hybrid KEMs: a misconfigured application gets an
+		// error from both setup functions, with every KEM (not a crash of the process)
+		run.Fault("misconfig:auth-mode-on-a-kem-without-auth")
+		_, skS := scheme.DeriveKeyPair(core.NewPRNG(p.IkmS).Bytes(scheme.SeedSize()))
+		pkR, skR := scheme.DeriveKeyPair(core.NewPRNG(p.IkmR).Bytes(scheme.SeedSize()))
+		snd, _ := suite.NewSender(pkR, []byte("info"))
+		var err error
+		if pan, v, st := core.Try(func() { _, _, err = snd.SetupAuth(core.NewStream(p.Entropy), skS) }); pan {
+			run.Violate("hpke.Sender.SetupAuth", core.PanicClass(v), "kem %#x has no auth mode: %s at %s", p.KEM, v, st)
+			return
+		} else if err == nil {
+			run.Violate("hpke.Sender.SetupAuth", "context-for-a-mode-the-kem-does-not-have", "kem %#x", p.KEM)
+			return
+		}
+		ct, _, _ := scheme.EncapsulateDeterministically(pkR, core.NewPRNG(p.Entropy).Bytes(scheme.EncapsulationSeedSize()))
+		rcv, _ := suite.NewReceiver(skR, []byte("info"))
+		if pan, v, st := core.Try(func() { _, err = rcv.SetupAuth(ct, skS.Public()) }); pan {
+			run.Violate("hpke.Receiver.SetupAuth", core.PanicClass(v), "kem %#x has no auth mode: %s at %s", p.KEM, v, st)
+		} else if err == nil {
+			run.Violate("hpke.Receiver.SetupAuth", "context-for-a-mode-the-kem-does-not-have", "kem %#x", p.KEM)
+		}
 		return
 	}
 	auth := p.Mode == hpkeref.ModeAuth || p.Mode == hpkeref.ModeAuthPSK
